@@ -221,6 +221,10 @@ func c02Gen(t *rapid.T) c02Case {
 				if len(sub) == 0 {
 					sub = []c02Named{{Name: kept[0].Name}}
 				}
+				if len(sub) > 1 && rapid.Bool().Draw(t, "reorder") {
+					// a restriction may list the names it keeps in any order
+					sub = rapid.Permutation(sub).Draw(t, "order")
+				}
 				kept = sub
 				c02SetNames(&c.Lvls[i], c.Base, sub)
 			}
@@ -250,8 +254,14 @@ func c02Gen(t *rapid.T) c02Case {
 		c02Defaults(t, &c, func(i int) string { return fmt.Sprint(i) })
 	case c.Base == "leafref":
 		c.Target = rapid.SampledFrom([]string{"int32", "string", "boolean", "enumeration", "um"}).Draw(t, "target")
-		paths := []string{"/tgt", "/m:tgt", "../sib", "../m:sib", "../../sib0", "/m:outer/m:sib0", "/outer/sib0"}
+		paths := []string{"/tgt", "/m:tgt", "../sib", "../m:sib", "../../sib0", "/m:outer/m:sib0", "/outer/sib0", "/i:itgt", "/i:ic/i:deep"}
 		c.Path = rapid.SampledFrom(paths).Draw(t, "path")
+		switch c.Path {
+		case "/i:itgt":
+			c.Target = "uint16" // the imported module's leaf; main has a string leaf of the same name
+		case "/i:ic/i:deep":
+			c.Target = "int64"
+		}
 		c02Defaults(t, &c, func(i int) string { return "" })
 	case c.Base == "identityref":
 		ni := rapid.IntRange(2, 6).Draw(t, "n-idents")
@@ -475,6 +485,7 @@ func (c c02Case) leafYang(ind string) string {
 func (c c02Case) files() map[string]string {
 	var imp, sub, m strings.Builder
 	imp.WriteString("module imp {\n namespace \"urn:imp\";\n prefix i;\n")
+	imp.WriteString(" leaf itgt {\n  type uint16;\n }\n container ic {\n  leaf deep {\n   type int64;\n  }\n }\n")
 	imp.WriteString(c.identities("imp", " "))
 	imp.WriteString(c.typedefs("import", " "))
 	imp.WriteString("}\n")
@@ -486,6 +497,7 @@ func (c c02Case) files() map[string]string {
 	m.WriteString(" typedef um {\n  type int8;\n  default \"7\";\n  units \"um-units\";\n }\n")
 	m.WriteString(c.typedefs("module", " "))
 	fmt.Fprintf(&m, " leaf tgt {\n  %s\n }\n", c.targetType())
+	m.WriteString(" leaf itgt {\n  type string;\n }\n container ic {\n  leaf deep {\n   type string;\n  }\n }\n")
 	if c.Decoy {
 		// same typedef names in a scope that is neither an ancestor nor a descendant of the real ones: legal, unrelated
 		m.WriteString(" container decoy {\n")
